@@ -80,6 +80,9 @@ fn panic_viol(id: &str, obs: &Obs, rec: &CaseRec) -> Option<Violation> {
 // =================================================================================
 
 pub fn check_c02(r: &Runner, ctx: &mut Ctx, l: &mut Local, rec: &CaseRec) -> Result<(), Violation> {
+    if rec.sub == "tail" {
+        return check_c02_tail(r, ctx, l, rec);
+    }
     let b = &rec.buf;
     let len = b.len();
     // split points: all for len <= 400, else 64 spread + the last 16
@@ -996,7 +999,80 @@ fn msg_entry(e: Entry, _c: u8) -> bool {
     e.kind() != Kind::Chunk
 }
 
+/// C02 on long extensions: a head that is decided early (Complete or Err) followed by a tail of
+/// up to 140 KiB; the verdict must not change however long the buffer grows.
+fn check_c02_tail(r: &Runner, ctx: &mut Ctx, l: &mut Local, rec: &CaseRec) -> Result<(), Violation> {
+    let head_len = rec.aux[0] as usize;
+    let mut first: Option<(usize, Norm)> = None;
+    for &k in &[head_len, head_len + 1, head_len + 40, rec.buf.len() / 2, rec.buf.len()] {
+        if k > rec.buf.len() || k < head_len {
+            continue;
+        }
+        let mut sub = rec.clone();
+        sub.buf.truncate(k);
+        let n = norm(&run_rec(ctx, &sub));
+        if let St::Panic(m) = &n.st {
+            return Err(viol("C02/panic", format!("parser panicked: {}", m), rec));
+        }
+        match &first {
+            None => {
+                if n.st != St::Partial {
+                    first = Some((k, n));
+                }
+            }
+            Some((k0, n0)) => {
+                let same = match (&n0.st, &n.st) {
+                    (St::Err(a), St::Err(b)) => a == b,
+                    (St::Complete(_), St::Complete(_)) => n0 == &n,
+                    _ => false,
+                };
+                if !same {
+                    return Err(viol(
+                        &format!("C02/unstable/{}-then-{}", n0.st.class(), n.st.class()),
+                        format!("a buffer of {} bytes gives {}, the same bytes extended to {} bytes give {}", k0, n0.st.show(), k, n.st.show()),
+                        rec,
+                    ));
+                }
+            }
+        }
+    }
+    r.account(l, rec, first.is_some() && rec.buf.len() > 4096, "decided head + long tail");
+    Ok(())
+}
+
 pub fn run_c02(r: &Runner) {
+    {
+        const HEADS: [(&[u8], Entry, u8); 10] = [
+            (b"GET / HTTP/1.1\r\nA: b\r\n\r\n", Entry::ReqParse, 0),
+            (b"GET / HTTP/1.1\r\nbad line\r\n", Entry::ReqParse, 0),
+            (b"GET / HTTP/1.1\r\nA: b\x01\r\n", Entry::ReqCfg, 0),
+            (b"GET /\x7f HTTP/1.1\r\n", Entry::ReqParse, 0),
+            (b"HTTP/1.1 200 OK\r\nA: b\r\n\r\n", Entry::RespParse, 0),
+            (b"HTTP/1.1 2x0 OK\r\n", Entry::RespParse, 0),
+            (b"HTTP/1.1 200 OK\r\n : x\r\n", Entry::RespCfg, C_MULTILINE),
+            (b"A: b\r\nC\r\n", Entry::Headers, 0),
+            (b"A: b\r\n\r\n", Entry::Headers, 0),
+            (b"1g\r\n", Entry::Chunk, 0),
+        ];
+        const TAILS: [usize; 7] = [100, 1000, 5000, 33000, 66000, 100000, 140000];
+        r.par_enum("early-decided heads (Complete and Err) × tails of 100 B..140 KiB × 3 tail fillers (no blank line / header-like lines / blank lines)", 10 * 7 * 3, |ctx, l, idx| {
+            let (head, entry, cfg) = HEADS[(idx % 10) as usize];
+            let tl = TAILS[((idx / 10) % 7) as usize];
+            let kind = idx / 70;
+            let mut buf = head.to_vec();
+            let unit: &[u8] = match kind {
+                0 => b"xxxxxxxxxxxxxxxxxxxxxxxxxxxxxxxxxxxxxxx ",
+                1 => b"Header-Name: header value\r\n",
+                _ => b"body\r\n\r\nmore\n\n",
+            };
+            while buf.len() < head.len() + tl {
+                buf.extend_from_slice(unit);
+            }
+            let mut rec = CaseRec::new("tail", entry, cfg, 8, buf);
+            rec.aux = vec![head.len() as u64];
+            check_c02_tail(r, ctx, l, &rec)
+        });
+    }
     families_phase(r, "prefix", &any_entry, check_c02);
     // extension direction: heads from the hygiene sweeps followed by 72 bytes of padding, so
     // that the same head is scanned once inside the last <32 bytes of a buffer and once
@@ -1222,15 +1298,43 @@ pub fn run_c16(r: &Runner) {
         check_c16(r, ctx, l, &rec)
     });
     hdr_exhaustive(r, "header strings × 8 contexts × option combos: entry points of one kind", if r.quick() { 4 } else { 5 }, &all_opt_combos()[1..], "c16-same-kind", check_c16);
+    // minimal messages: the shortest possible start lines with runs of minimal header lines,
+    // every capacity 0..=k+2 (a bound derived from the buffer length would only bite here)
+    {
+        const STARTS: [(&[u8], Entry); 6] = [
+            (b"A / HTTP/1.1\n", Entry::ReqParse), (b"A / HTTP/1.0\r\n", Entry::ReqParse), (b"GET / HTTP/1.1\n", Entry::ReqParse),
+            (b"HTTP/1.1 200\n", Entry::RespParse), (b"HTTP/1.0 200\r\n", Entry::RespParse), (b"HTTP/1.1 200 \n", Entry::RespParse),
+        ];
+        const UNITS: [&[u8]; 4] = [b"a:\n", b"a:b\n", b"a:\r\n", b"ab: c\r\n"];
+        let total = 6 * 4 * 13 * 15 * 2;
+        r.par_enum("minimal start lines × k=0..=12 minimal header lines × capacity 0..=14 × {LF, CRLF terminator}: entry points of one kind", total, |ctx, l, idx| {
+            let mut x = idx;
+            let crlf = x % 2 == 1;
+            x /= 2;
+            let cap = (x % 15) as usize;
+            x /= 15;
+            let k = (x % 13) as usize;
+            x /= 13;
+            let unit = UNITS[(x % 4) as usize];
+            let (sl, entry) = STARTS[(x / 4) as usize];
+            let mut buf = sl.to_vec();
+            for _ in 0..k {
+                buf.extend_from_slice(unit);
+            }
+            buf.extend_from_slice(if crlf { b"\r\n" } else { b"\n" });
+            let rec = CaseRec::new("c16-same-kind", entry, 0, cap, buf);
+            check_c16(r, ctx, l, &rec)
+        });
+    }
 }
 
 pub fn run_c17(r: &Runner) {
     families_phase(r, "storage", &msg_entry, check_c17);
     // many header lines: k in a set around 256 and beyond, capacities around k and well above
     {
-        const KS: [usize; 9] = [20, 64, 200, 255, 256, 257, 300, 1000, 4000];
+        const KS: [usize; 12] = [20, 64, 200, 255, 256, 257, 300, 1000, 4000, 4097, 9000, 70000];
         const DC: [i64; 6] = [-1, 0, 1, 2, 50, 1000];
-        r.par_enum("k minimal header lines for k in {20,64,200,255,256,257,300,1000,4000} × capacity k+{-1,0,1,2,50,1000} × 9 entry points × {complete, truncated}", 9 * 6 * 9 * 2, |ctx, l, idx| {
+        r.par_enum("k minimal header lines for k in {20,64,200,255,256,257,300,1000,4000,4097,9000,70000} × capacity k+{-1,0,1,2,50,1000} × 9 entry points × {complete, truncated}", 12 * 6 * 9 * 2, |ctx, l, idx| {
             let mut x = idx;
             let trunc = x % 2 == 1;
             x /= 2;
